@@ -86,6 +86,15 @@ def flavours():
     add('tls12-dhe-dsa', skw=dict(cred='dsa'), cset=dict(maxVersion=(3, 3)))
     add('tls11-clientauth-dsa', ckw=dict(cred='client-dsa'), skw=dict(cred='rsa', reqCert=True), cset=dict(maxVersion=(3, 2)))
     add('tls13-clientauth-ecdsa', ckw=dict(cred='client-ecdsa'), skw=dict(cred='ecdsa', reqCert=True))
+    add('tls12-ecdhe-p521', skw=dict(cred='rsa'), cset=dict(maxVersion=(3, 3), eccCurves=['secp521r1'], keyShares=[]),
+        sset=dict(maxVersion=(3, 3), eccCurves=['secp521r1'], keyShares=[]))
+    add('anon-ecdh-p521', client_kind='anon', skw=dict(anon=True),
+        cset=dict(maxVersion=(3, 3), keyExchangeNames=['ecdh_anon'], eccCurves=['secp521r1'], keyShares=[]),
+        sset=dict(maxVersion=(3, 3), eccCurves=['secp521r1'], keyShares=[]))
+    # honest but incompatible peers: no common ECDH group in an anonymous ECDH handshake
+    add('anon-ecdh-nomutual', client_kind='anon', skw=dict(anon=True),
+        cset=dict(maxVersion=(3, 3), keyExchangeNames=['ecdh_anon'], eccCurves=['secp521r1'], keyShares=[]),
+        sset=dict(maxVersion=(3, 3), keyExchangeNames=['ecdh_anon'], eccCurves=['secp256r1'], keyShares=[]))
     return F
 
 
@@ -633,6 +642,25 @@ def apply_msg_mutation(msg, mut, rng):
         comp = bomb_payload(n_mb)
         body = u16(1) + u24(declared) + u24(len(comp)) + comp
         return [RawMsg(22, hs_wrap(25, body))], 'hs25:cert-bomb(%dMB->%dB,declared=%d)' % (n_mb, len(comp), declared)
+    if name == 'ec-x-plus-p' and ct == 22 and len(data) >= 8 and data[0] in (12, 16):
+        # an uncompressed EC point whose x coordinate is replaced by x + p (not reduced, still fits the field size)
+        import ecdsa
+        curve = getattr(ecdsa, mut[1])          # e.g. NIST521p
+        p_, size = curve.curve.p(), (curve.curve.p().bit_length() + 7) // 8
+        body = bytearray(data[4:])
+        off = 0 if data[0] == 16 else 3
+        ln = body[off]
+        pt = body[off + 1:off + 1 + ln]
+        if (ln == 1 + 2 * size and pt[0] == 4) or (ln == 1 + size and pt[0] in (2, 3)):
+            x = int.from_bytes(pt[1:1 + size], 'big')
+            y = pt[1 + size:]
+            if mut[2] == 'x+p' and x + p_ < 256 ** size:
+                x2 = x + p_
+            else:
+                x2 = p_
+            body[off + 1:off + 1 + ln] = bytes([pt[0]]) + x2.to_bytes(size, 'big') + bytes(y)
+            return [RawMsg(22, hs_wrap(data[0], body))], 'hs%d:ec-point-%s' % (data[0], mut[2])
+        return [RawMsg(22, bytes(data))], 'hs%d:ec-point-none' % data[0]
     if ct != 22 or len(data) < 4:
         # non-handshake message (CCS, alert, application data, heartbeat): byte-level only
         return byte_level(ct, data, name, rng)
@@ -891,6 +919,20 @@ def bomb_cases(rng, sizes_mb):
         for declared in (10, 1000):
             out.append(dict(flavour=fi, role='client', seed=rng.randrange(1 << 30), level='msg', mut=('cert-bomb', mb, declared),
                             phase='hs', target=None, tsel=0.0, target_hs_type=25, mem=True))
+    return out
+
+
+def ecpoint_cases(rng):
+    """EC points with an unreduced x coordinate (x + p, or x = p) on secp521r1 in ClientKeyExchange
+    (server under test) and in the unsigned ServerKeyExchange of ECDH_anon (client under test)"""
+    names = [f['name'] for f in get_flavours()]
+    out = []
+    for fname, role, t in (('tls12-ecdhe-p521', 'server', 16), ('anon-ecdh-p521', 'server', 16),
+                           ('anon-ecdh-p521', 'client', 12)):
+        for how in ('x+p', 'x=p'):
+            out.append(dict(flavour=names.index(fname), role=role, seed=rng.randrange(1 << 30), level='msg',
+                            mut=('ec-x-plus-p', 'NIST521p', how), phase='hs', target=None, tsel=0.0,
+                            target_hs_type=t, mem=False))
     return out
 
 
